@@ -1,2 +1,386 @@
+// Contract module for property C02, obligations (1)-(3) for the packet views (Raw / Udp / Scmp), the UDP
+// datagram view and the SCMP payload / message views.
+// Included from crates/libs/sciparse/src/proto/packet/view.rs by
+//   #[cfg(kani)] #[path = "/verif/kani/sciparse/c02_packet_view.rs"] mod verif_c02_packet_view;
+//
+// Inv for packet views: has_required_size(bytes) == Ok(bytes.len()) (the view is built over bytes[..n]).
+// Memory-safety part of Inv that accessors rely on (and that safe mutators must preserve):
+//   Raw  : header Inv on the prefix, HdrLen*4 <= len
+//   Udp  : Raw  and payload().len() >= 8
+//   UdpDatagramView : len >= 8
+//   ScmpPayloadView : ScmpMessageLayout(bytes) fits, i.e. len >= fixed size of the message type in byte 0
 #![allow(dead_code, unused_imports)]
+
 use super::*;
+use crate::{
+    core::view::View,
+    payload::scmp::view::{ScmpMessageView, ScmpMessageViewMut},
+    scion::identifier::{asn::Asn, isd_asn::IsdAsn},
+};
+
+const NK: usize = 80; // 36..68 byte headers (empty / one-hop path, 4-byte hosts) + up to 44 payload bytes
+
+fn inside(outer: &[u8], p: *const u8, len: usize) -> bool {
+    let off = unsafe { p.offset_from(outer.as_ptr()) };
+    off >= 0 && (off as usize) + len <= outer.len()
+}
+
+// ------------------------------------------------------------------------------------------
+// raw packet view
+// ------------------------------------------------------------------------------------------
+
+#[kani::proof]
+fn c02_pkt_raw_ctor_accessors() {
+    let buf: [u8; NK] = kani::any();
+    let len: usize = kani::any();
+    kani::assume(len <= NK);
+    let b = &buf[..len];
+    match ScionRawPacketView::try_from_slice(b) {
+        Ok((v, rest)) => {
+            let vs = v.as_slice();
+            assert!(vs.as_ptr() == b.as_ptr() && vs.len() + rest.len() == len, "C02.ctor: packet view is a prefix of the input");
+            assert!(rest.as_ptr() == unsafe { b.as_ptr().add(vs.len()) }, "C02.ctor: packet rest follows the view");
+            assert!(ScionRawPacketView::has_required_size(vs) == Ok(vs.len()), "C02.ctor: Inv holds on the packet view");
+            let h = v.header();
+            let hs = h.as_slice();
+            assert!(hs.as_ptr() == vs.as_ptr() && hs.len() == h.header_len() as usize && hs.len() <= vs.len(), "C02.acc: header() is the HdrLen*4 prefix of the packet");
+            assert!(ScionHeaderView::has_required_size(hs) == Ok(hs.len()), "C02.acc: Inv of the header sub-view");
+            let p = v.payload();
+            assert!(inside(vs, p.as_ptr(), p.len()), "C02.acc: payload() inside the packet");
+            assert!(p.as_ptr() == unsafe { vs.as_ptr().add(hs.len()) } && hs.len() + p.len() == vs.len(), "C02.acc: payload() is the packet tail");
+            assert!(p.len() <= h.payload_len() as usize, "C02.acc: payload() never longer than PayloadLen");
+            let _ = v.src_scion_addr();
+            let _ = v.dst_scion_addr();
+            kani::cover!(p.len() < h.payload_len() as usize, "truncated payload");
+            kani::cover!(!rest.is_empty() && p.len() == 5, "trailing bytes after the payload");
+            kani::cover!(hs.len() == 68, "one-hop path header");
+        }
+        Err(_) => {
+            kani::cover!(len >= 36, "header rejected");
+        }
+    }
+}
+
+#[kani::proof]
+fn c02_pkt_raw_classify() {
+    let buf: [u8; NK] = kani::any();
+    let len: usize = kani::any();
+    kani::assume(len <= NK);
+    let Ok((v, _)) = ScionRawPacketView::try_from_slice(&buf[..len]) else { return };
+    let vs = v.as_slice();
+    match v.try_as_udp() {
+        Ok(u) => {
+            assert!(u.as_slice().as_ptr() == vs.as_ptr() && u.as_slice().len() == vs.len(), "C02.acc: try_as_udp keeps the bytes");
+            assert!(v.payload().len() >= 8 && v.header().next_header() == ProtocolNumber::Udp, "C02.acc: try_as_udp only with a UDP header present");
+            let d = u.udp();
+            assert!(inside(vs, d.as_slice().as_ptr(), d.as_slice().len()), "C02.acc: udp() inside the packet");
+            kani::cover!(true, "udp packet");
+        }
+        Err(_) => {}
+    }
+    match v.try_as_scmp() {
+        Ok(s) => {
+            assert!(s.as_slice().as_ptr() == vs.as_ptr() && s.as_slice().len() == vs.len(), "C02.acc: try_as_scmp keeps the bytes");
+            let m = s.scmp();
+            assert!(inside(vs, m.as_slice().as_ptr(), m.as_slice().len()), "C02.acc: scmp() inside the packet");
+            kani::cover!(true, "scmp packet");
+        }
+        Err(_) => {}
+    }
+    let c = v.try_classify();
+    kani::cover!(c.is_err(), "malformed upper layer");
+    kani::cover!(matches!(c, Ok(ClassifiedPacketView::Other(_))), "other protocol");
+}
+
+#[kani::proof]
+fn c02_pkt_raw_mutators_preserve_inv() {
+    let mut buf: [u8; NK] = kani::any();
+    let len: usize = kani::any();
+    kani::assume(len <= NK);
+    let vlen;
+    {
+        let Ok((v, _)) = ScionRawPacketView::try_from_mut_slice(&mut buf[..len]) else { return };
+        vlen = v.as_slice().len();
+        let base = v.as_slice().as_ptr();
+        let hl = v.header().header_len() as usize;
+        {
+            let p = v.payload_mut();
+            let off = unsafe { p.as_ptr().offset_from(base) };
+            assert!(off as usize == hl && hl + p.len() == vlen, "C02.mut: payload_mut() is the packet tail");
+            let k: usize = kani::any();
+            if k < p.len() {
+                p[k] = kani::any();
+                kani::cover!(k == 7, "payload byte written");
+            }
+        }
+        let h = v.header_mut();
+        assert!(h.as_slice().as_ptr() == base && h.as_slice().len() == hl, "C02.mut: header_mut() is the HdrLen*4 prefix");
+        h.set_traffic_class(kani::any());
+        h.set_flow_id(kani::any());
+        h.set_next_header(ProtocolNumber::from(kani::any::<u8>()));
+        h.set_dst_as(Asn(kani::any()));
+    }
+    assert!(ScionRawPacketView::has_required_size(&buf[..vlen]) == Ok(vlen), "C02.mut: raw packet mutators preserve Inv");
+}
+
+// ------------------------------------------------------------------------------------------
+// UDP packet view
+// ------------------------------------------------------------------------------------------
+
+#[kani::proof]
+fn c02_pkt_udp_ctor_accessors() {
+    let mut buf: [u8; NK] = kani::any();
+    let len: usize = kani::any();
+    kani::assume(len <= NK);
+    let vlen;
+    {
+        let Ok((v, rest)) = ScionUdpPacketView::try_from_mut_slice(&mut buf[..len]) else { return };
+        vlen = v.as_slice().len();
+        assert!(vlen + rest.len() == len, "C02.ctor: udp packet view and rest partition the input");
+        let vs_ptr = v.as_slice().as_ptr();
+        let hl = v.header().header_len() as usize;
+        assert!(v.payload().len() >= 8 && hl + v.payload().len() == vlen, "C02.ctor: udp packet has a full UDP header");
+        let d = v.udp();
+        let ds = d.as_slice();
+        assert!(ds.as_ptr() == unsafe { vs_ptr.add(hl) } && ds.len() >= 8 && hl + ds.len() <= vlen, "C02.acc: udp() starts the payload and stays inside");
+        assert!(ds.len() == core::cmp::min(d.length() as usize, vlen - hl), "C02.acc: udp() length is min(UDP length, available)");
+        let _ = (d.src_port(), d.dst_port(), d.checksum());
+        assert!(d.payload().len() + 8 == ds.len(), "C02.acc: UDP payload follows the 8-byte header");
+        let _ = v.src_socket_addr();
+        let _ = v.dst_socket_addr();
+        let r = v.as_raw();
+        assert!(r.as_slice().as_ptr() == vs_ptr && r.as_slice().len() == vlen, "C02.acc: as_raw keeps the bytes");
+        kani::cover!(ds.len() < vlen - hl, "UDP length shorter than the SCION payload");
+        kani::cover!((d.length() as usize) > vlen - hl, "UDP length longer than available");
+        // safe mutators reachable from &mut ScionUdpPacketView without as_raw_mut
+        let h = v.header_mut();
+        h.set_traffic_class(kani::any());
+        h.set_flow_id(kani::any());
+        h.set_next_header(ProtocolNumber::from(kani::any::<u8>()));
+        let _ = v.udp().length();
+    }
+    assert!(ScionUdpPacketView::has_required_size(&buf[..vlen]) == Ok(vlen), "C02.mut: udp packet header setters preserve Inv");
+}
+
+/// `as_raw_mut()` is a SAFE fn: everything reachable through it is a safe mutator of the UDP packet view.
+/// Contract: afterwards every safe accessor is still panic-free and in bounds.
+#[kani::proof]
+fn c02_pkt_udp_as_raw_mut_then_accessors() {
+    let mut buf: [u8; NK] = kani::any();
+    let len: usize = kani::any();
+    kani::assume(len <= NK);
+    let Ok((v, _)) = ScionUdpPacketView::try_from_mut_slice(&mut buf[..len]) else { return };
+    let vlen = v.as_slice().len();
+    let hl = v.header().header_len() as usize;
+    {
+        #[allow(unused_unsafe)]
+        let raw = unsafe { v.as_raw_mut() };
+        let p = raw.payload_mut();
+        let k: usize = kani::any();
+        kani::assume(k < p.len());
+        p[k] = kani::any();
+        kani::cover!(k == 5, "UDP length low byte written");
+    }
+    // memory-safety part of Inv
+    assert!(ScionRawPacketView::has_required_size(v.as_slice()) == Ok(vlen) && v.payload().len() >= 8, "C02.mut: as_raw_mut writes keep the raw Inv and the 8-byte UDP header");
+    let d = v.udp(); // "C02.mut" obligation: must not panic (reported by Kani as a failed `expect`)
+    let ds = d.as_slice();
+    assert!(ds.len() >= 8 && hl + ds.len() <= vlen, "C02.mut: udp() after as_raw_mut writes stays inside the packet");
+    let _ = (d.src_port(), d.dst_port(), d.length(), d.checksum(), d.payload().len());
+    let _ = v.src_socket_addr();
+}
+
+// ------------------------------------------------------------------------------------------
+// UDP datagram view
+// ------------------------------------------------------------------------------------------
+
+#[kani::proof]
+fn c02_udp_datagram_view() {
+    let mut buf: [u8; 24] = kani::any();
+    let len: usize = kani::any();
+    kani::assume(len <= 24);
+    let base = buf.as_ptr();
+    match UdpDatagramView::try_from_mut_slice(&mut buf[..len]) {
+        Ok((v, rest)) => {
+            let vl = v.as_slice().len();
+            assert!(v.as_slice().as_ptr() == base && vl + rest.len() == len && vl >= 8, "C02.ctor: udp datagram view is a prefix of at least 8 bytes");
+            assert!(vl == core::cmp::min(len, v.length() as usize), "C02.ctor: udp datagram view length = min(len, Length)");
+            let p = v.payload();
+            assert!(p.as_ptr() == unsafe { base.add(8) } && p.len() == vl - 8, "C02.acc: udp payload is the view tail");
+            // safe mutators with arbitrary values, arbitrary payload writes
+            v.set_src_port(kani::any());
+            v.set_dst_port(kani::any());
+            v.set_length(kani::any());
+            v.set_checksum(kani::any());
+            let k: usize = kani::any();
+            let pm = v.payload_mut();
+            if k < pm.len() {
+                pm[k] = kani::any();
+            }
+            // accessors rely only on len >= 8, which no safe mutator changes
+            assert!(v.as_slice().len() == vl, "C02.mut: udp datagram mutators keep the view length");
+            let _ = (v.src_port(), v.dst_port(), v.length(), v.checksum());
+            assert!(v.payload().len() == vl - 8, "C02.mut: udp payload after mutation is still the view tail");
+            kani::cover!(vl == 8, "header only");
+            kani::cover!(!rest.is_empty(), "Length field shorter than the buffer");
+            kani::cover!(v.length() < 8, "set_length wrote a value below the header size (strict Inv not preserved, accessors unaffected)");
+        }
+        Err(_) => {
+            kani::cover!(len >= 8, "Length field below 8");
+            kani::cover!(len < 8, "too short");
+        }
+    }
+}
+
+// ------------------------------------------------------------------------------------------
+// SCMP payload view and message views
+// ------------------------------------------------------------------------------------------
+
+const NS: usize = 40;
+
+fn scmp_fixed_size(t: u8) -> usize {
+    // SCMP specification: fixed part of each message type
+    match t {
+        1 | 2 | 4 => 8,
+        5 => 20,
+        6 => 28,
+        128 | 129 => 8,
+        130 | 131 => 24,
+        _ => 8,
+    }
+}
+
+#[kani::proof]
+fn c02_scmp_payload_ctor_message() {
+    let buf: [u8; NS] = kani::any();
+    let len: usize = kani::any();
+    kani::assume(len <= NS);
+    let b = &buf[..len];
+    match ScmpPayloadView::try_from_slice(b) {
+        Ok((v, rest)) => {
+            let vs = v.as_slice();
+            assert!(vs.as_ptr() == b.as_ptr() && vs.len() + rest.len() == len, "C02.ctor: scmp view is a prefix of the input");
+            assert!(vs.len() >= scmp_fixed_size(buf[0]), "C02.ctor: scmp view holds the fixed part of its message type");
+            assert!(ScmpPayloadView::has_required_size(vs) == Ok(vs.len()), "C02.ctor: Inv holds on the scmp view");
+            let _ = (v.message_type(), v.code(), v.checksum());
+            match v.message() {
+                ScmpMessageView::DestinationUnreachable(m) => {
+                    let o = m.offending_packet();
+                    assert!(m.as_slice().as_ptr() == vs.as_ptr() && m.as_slice().len() == vs.len() && inside(vs, o.as_ptr(), o.len()) && o.len() + 8 == vs.len(), "C02.acc: destination unreachable view / offending packet inside");
+                    let _ = (m.code(), m.checksum(), m.reserved());
+                    kani::cover!(o.len() == 3, "short quote");
+                }
+                ScmpMessageView::PacketTooBig(m) => {
+                    let o = m.offending_packet();
+                    assert!(m.as_slice().len() == vs.len() && inside(vs, o.as_ptr(), o.len()) && o.len() + 8 == vs.len(), "C02.acc: packet too big view / offending packet inside");
+                    let _ = (m.code(), m.checksum(), m.mtu());
+                }
+                ScmpMessageView::ParameterProblem(m) => {
+                    let o = m.offending_packet();
+                    assert!(m.as_slice().len() == vs.len() && inside(vs, o.as_ptr(), o.len()) && o.len() + 8 == vs.len(), "C02.acc: parameter problem view / offending packet inside");
+                }
+                ScmpMessageView::ExternalInterfaceDown(m) => {
+                    let o = m.offending_packet();
+                    assert!(m.as_slice().len() == vs.len() && inside(vs, o.as_ptr(), o.len()) && o.len() + 20 == vs.len(), "C02.acc: external interface down view / offending packet inside");
+                    let _ = (m.code(), m.checksum(), m.isd_asn(), m.interface_id());
+                    kani::cover!(true, "external interface down");
+                }
+                ScmpMessageView::InternalConnectivityDown(m) => {
+                    let o = m.offending_packet();
+                    assert!(m.as_slice().len() == vs.len() && inside(vs, o.as_ptr(), o.len()) && o.len() + 28 == vs.len(), "C02.acc: internal connectivity down view / offending packet inside");
+                    let _ = (m.isd_asn(), m.ingress_interface_id(), m.egress_interface_id());
+                    kani::cover!(o.len() == 12, "internal connectivity down with a 12-byte quote");
+                }
+                ScmpMessageView::EchoRequest(m) => {
+                    let d = m.data();
+                    assert!(m.as_slice().len() == vs.len() && inside(vs, d.as_ptr(), d.len()) && d.len() + 8 == vs.len(), "C02.acc: echo request view / data inside");
+                    let _ = (m.identifier(), m.sequence_number());
+                }
+                ScmpMessageView::EchoReply(m) => {
+                    let d = m.data();
+                    assert!(m.as_slice().len() == vs.len() && inside(vs, d.as_ptr(), d.len()) && d.len() + 8 == vs.len(), "C02.acc: echo reply view / data inside");
+                }
+                ScmpMessageView::TracerouteRequest(m) => {
+                    assert!(m.as_slice().as_ptr() == vs.as_ptr() && m.as_slice().len() == 24, "C02.acc: traceroute request view is 24 bytes");
+                    let _ = (m.identifier(), m.sequence_number(), m.isd_asn(), m.interface_id());
+                    kani::cover!(!rest.is_empty(), "traceroute request with trailing bytes");
+                }
+                ScmpMessageView::TracerouteReply(m) => {
+                    assert!(m.as_slice().len() == 24, "C02.acc: traceroute reply view is 24 bytes");
+                    let _ = (m.identifier(), m.sequence_number(), m.isd_asn(), m.interface_id());
+                }
+                ScmpMessageView::Unknown(m) => {
+                    let d = m.message_specific_data();
+                    assert!(m.as_slice().len() == vs.len() && inside(vs, d.as_ptr(), d.len()) && d.len() + 8 == vs.len(), "C02.acc: unknown message view / data inside");
+                    kani::cover!(true, "unknown message type");
+                }
+            }
+        }
+        Err(_) => {
+            kani::cover!(len >= 8, "fixed part of the message type does not fit");
+            kani::cover!(len < 4, "no SCMP header");
+        }
+    }
+}
+
+/// Safe setters reachable through message_mut() must preserve Inv of the payload view (the message type
+/// decides how many bytes the typed accessors read).
+#[kani::proof]
+fn c02_scmp_message_mut_preserves_inv() {
+    let mut buf: [u8; NS] = kani::any();
+    let len: usize = kani::any();
+    kani::assume(len <= NS);
+    let vlen;
+    {
+        let Ok((v, _)) = ScmpPayloadView::try_from_mut_slice(&mut buf[..len]) else { return };
+        vlen = v.as_slice().len();
+        v.set_code(kani::any());
+        v.set_checksum(kani::any());
+        match v.message_mut() {
+            ScmpMessageViewMut::DestinationUnreachable(m) => {
+                m.set_reserved(kani::any());
+                let k: usize = kani::any();
+                let o = m.offending_packet_mut();
+                if k < o.len() { o[k] = kani::any(); }
+            }
+            ScmpMessageViewMut::PacketTooBig(m) => { m.set_mtu(kani::any()); }
+            ScmpMessageViewMut::ParameterProblem(m) => { m.set_checksum(kani::any()); }
+            ScmpMessageViewMut::ExternalInterfaceDown(m) => { m.set_interface_id(kani::any()); m.set_isd_asn(IsdAsn(kani::any())); }
+            ScmpMessageViewMut::InternalConnectivityDown(m) => { m.set_egress_interface_id(kani::any()); }
+            ScmpMessageViewMut::EchoRequest(m) => {
+                m.set_identifier(kani::any());
+                let k: usize = kani::any();
+                let d = m.data_mut();
+                if k < d.len() { d[k] = kani::any(); }
+            }
+            ScmpMessageViewMut::EchoReply(m) => { m.set_sequence_number(kani::any()); }
+            ScmpMessageViewMut::TracerouteRequest(m) => { m.set_interface_id(kani::any()); }
+            ScmpMessageViewMut::TracerouteReply(m) => { m.set_isd_asn(IsdAsn(kani::any())); }
+            ScmpMessageViewMut::Unknown(m) => {
+                m.set_checksum(kani::any());
+                let k: usize = kani::any();
+                let d = m.message_specific_data_mut();
+                if k < d.len() { d[k] = kani::any(); }
+                kani::cover!(true, "unknown message mutated");
+            }
+        }
+    }
+    assert!(ScmpPayloadView::has_required_size(&buf[..vlen]) == Ok(vlen), "C02.mut: scmp message setters preserve Inv");
+}
+
+/// `ScmpUnknownMessageView::set_message_type` is a SAFE setter of the size-determining type byte.
+#[kani::proof]
+fn c02_scmp_unknown_set_type_preserves_inv() {
+    let mut buf: [u8; NS] = kani::any();
+    let len: usize = kani::any();
+    kani::assume(len <= NS);
+    let vlen;
+    {
+        let Ok((v, _)) = ScmpPayloadView::try_from_mut_slice(&mut buf[..len]) else { return };
+        vlen = v.as_slice().len();
+        let ScmpMessageViewMut::Unknown(m) = v.message_mut() else { return };
+        m.set_message_type(kani::any());
+        kani::cover!(true, "type byte of an unknown message rewritten");
+    }
+    assert!(ScmpPayloadView::has_required_size(&buf[..vlen]) == Ok(vlen), "C02.mut: safe ScmpUnknownMessageView::set_message_type preserves Inv of the payload view");
+}
